@@ -368,6 +368,20 @@ def internal_debug_assertion(F, b, bi):
     return True
 
 
+_BASE = None
+
+
+def baseline_functions():
+    """names of the functions of both crates at the commit the exception table was written for (frozen list)"""
+    global _BASE
+    if _BASE is None:
+        import json
+        import os
+        p_ = os.path.join(os.path.dirname(os.path.dirname(os.path.abspath(__file__))), 'baseline_functions.json')
+        _BASE = set(json.load(open(p_))) if os.path.exists(p_) else set()
+    return _BASE
+
+
 def site_signature(b, bi):
     """(op, origins of each operand) of a checked arithmetic op or an index expression; None when not comparable"""
     fl = flow_of(b)
@@ -460,6 +474,12 @@ def run_entries(ctx, rid, entries, text, floor_bodies=3):
                 extra = [(b, bi, d) for (b, bi, d) in lst if internal_debug_assertion(F, b, bi)]
                 ctx.undecided(rid, '%s: %d debug-only assertion(s) on internal state beyond the tabled %d (%s)' % (
                     top, len(extra), mx, '; '.join(d for _, _, d in extra[:3])))
+            elif top not in baseline_functions():
+                # a function that did not exist when the table was written (new helper, new type's method): its sites have not
+                # been judged by anyone - say so instead of calling them violations (a site added to a function that DID exist
+                # is still reported)
+                ctx.undecided(rid, '%s is new code with %d unjudged %s site(s) reachable from a hostile-input entry point (%s)' % (
+                    top, len(lst), kind, '; '.join(d for _, _, d in lst[:2])))
             else:
                 where = '; '.join('%s [%s]' % (term_loc(b, bi), d) for b, bi, d in lst[:6])
                 ctx.bad(rid, '%s:%s' % (top, kind),
